@@ -58,6 +58,8 @@ def known_lists():
         if e.get('status') != 'known':
             continue
         w = e['witness']
+        if w['kind'] == 'lazyctx':
+            continue
         if w['kind'] == 'vocab':
             if w['name'] == '*':
                 pos.append(w['position'])
@@ -267,6 +269,31 @@ def random_name_sample(ctx, T, V, n):
     return out
 
 
+def judge_lazy(ctx):
+    """unsupported expression operators inside sub-expressions the evaluation may not reach"""
+    import c20_lazyctx
+    known = {e['witness']['context'] for e in common.load_known('C20')
+             if e.get('status') == 'known' and e['witness'].get('kind') == 'lazyctx'}
+    res = c20_lazyctx.probe()
+    bad = 0
+    for r in res:
+        if not r['silent']:
+            continue
+        fid = 'lazy-expr:' + r['context']
+        if r['context'] in known:
+            ctx.known_seen[fid] = ctx.known_seen.get(fid, 0) + 1
+            continue
+        bad += 1
+        ctx.violation({'kind': 'property fails on the real code: an unsupported expression '
+                               'operator is skipped silently', 'what': 'lazyctx',
+                       'context': r['context'], 'host': r['host'], 'operator': r['which'],
+                       'python': r['python']}, rank=1)
+    return {'probes': len(res), 'contexts': len(c20_lazyctx.CONTEXTS),
+            'silent_known': sorted({r['context'] for r in res if r['silent'] and
+                                    r['context'] in known}),
+            'silent_new': bad}
+
+
 def run(ctx, proof, driver_ok):
     st = getattr(ctx, 'c20', None) or regenerate(ctx)
     T, entries, meta, opts = st['T'], st['entries'], st['meta'], st['opts']
@@ -276,6 +303,7 @@ def run(ctx, proof, driver_ok):
     bad_opts = judge_options(ctx, opts, ksilent, koptout)
     pairs = st.get('pairs') or []
     bad_pairs = judge_pairs(ctx, pairs, ksilent)
+    lazy = judge_lazy(ctx)
     switch_failures, switch_checks = extract_options.check_feature_switches()
     for msg in switch_failures:
         ctx.violation({'kind': 'not_implemented.py: the opt-out switch does not do what it says',
@@ -363,6 +391,7 @@ def run(ctx, proof, driver_ok):
         'type_aliases': len(meta['aliases']),
         'seeded_random_names_in_table': meta['random_names'],
         'positions': extract_vocab.POSITIONS,
+        'lazy_expression_contexts': lazy,
         'table_entries': len(entries),
         'dispositions': dict(hist),
         'dispositions_by_position': per_pos,
@@ -399,6 +428,9 @@ def replay(ctx, path):
             if out != now['disp']:
                 ctx.violation(dict(vocab_replay(now, 'correspondence broken'), model=out),
                               no_input=True)
+    elif e.get('what') == 'lazyctx':
+        judge_lazy(ctx)
+        ctx.violations = [v for v in ctx.violations if v[2].get('context') == e.get('context')]
     elif e.get('what') == 'option-pair':
         now = extract_options.probe_one_pair(e['cls'], e['method'], e['a'], e['b'],
                                              e['a_opted_out'])
@@ -419,6 +451,9 @@ def replay(ctx, path):
 def replay_finding(ctx, e):
     """does the listed witness still fail the property on the real code?"""
     w = e['witness']
+    if w['kind'] == 'lazyctx':
+        import c20_lazyctx
+        return w['context'] in c20_lazyctx.silent_contexts()
     if w['kind'] == 'vocab':
         name = w['representative'] if w['name'] == '*' else w['name']
         return extract_vocab.probe_one(w['position'], name)['disp'] == 'ignored'
